@@ -1,1 +1,2 @@
 //! Reference models written from the property statements (never from the code).
+pub mod window;
